@@ -68,15 +68,34 @@ def run_tasks(tasks, nproc=None):
         import concurrent.futures as cf
         ctx = multiprocessing.get_context('fork')
         res = [None] * len(tasks)
-        with cf.ProcessPoolExecutor(min(nproc, len(tasks)), mp_context=ctx) as ex:
+        # wall-clock budget of the whole check: solver time limits are not honoured inside some non-linear procedures, and
+        # a changed body can make a query that was instant run for an hour; what is not finished by then is UNDECIDED
+        budget = float(os.environ.get('PYVC_MAX_WALL', '2400'))
+        ex = cf.ProcessPoolExecutor(min(nproc, len(tasks)), mp_context=ctx)
+        try:
             futs = {ex.submit(_worker, t): i for i, t in enumerate(tasks)}
-            for f in cf.as_completed(futs):
-                i = futs[f]
-                try:
-                    res[i] = f.result()
-                except Exception as e:      # BrokenProcessPool and friends
-                    res[i] = [{'name': f'{tasks[i][0]}.{tasks[i][1]}', 'case': repr(tasks[i][2])[:200], 'kind': 'engine',
-                               'verdict': 'crash', 'note': f'worker process died: {e!r}', 'secs': 0.0}]
+            try:
+                for f in cf.as_completed(futs, timeout=budget):
+                    i = futs[f]
+                    try:
+                        res[i] = f.result()
+                    except Exception as e:      # BrokenProcessPool and friends
+                        res[i] = [{'name': f'{tasks[i][0]}.{tasks[i][1]}', 'case': repr(tasks[i][2])[:200], 'kind': 'engine',
+                                   'verdict': 'crash', 'note': f'worker process died: {e!r}', 'secs': 0.0}]
+            except cf.TimeoutError:
+                for f, i in futs.items():
+                    if res[i] is None:
+                        f.cancel()
+                        res[i] = [{'name': f'{tasks[i][1]}{tasks[i][2]!r}'[:160], 'case': 'wall-clock budget', 'kind': 'aux',
+                                   'verdict': 'unknown', 'secs': 0.0,
+                                   'note': f'not finished within the wall-clock budget of {budget:.0f} s (PYVC_MAX_WALL)'}]
+                for p_ in list(getattr(ex, '_processes', {}).values()):
+                    try:
+                        p_.terminate()
+                    except Exception:
+                        pass
+        finally:
+            ex.shutdown(wait=False, cancel_futures=True)
     flat = []
     for r in res:
         flat.extend(r)
